@@ -1285,6 +1285,10 @@ type expr =
 | Add of expr * expr
 | CallE of expr * expr
 | Par of expr
+| MCall1 of expr * char list * expr
+| Get of expr * char list
+| CallT1 of expr * expr * expr
+| Hoist3 of nat * expr * nat * expr * nat * expr * expr
 | Hoist2 of nat * expr * nat * expr * expr
 | Hoist1 of nat * expr * expr
 | Hook of expr * expr list
@@ -1306,7 +1310,12 @@ val wrap : (nat * expr) list -> expr -> expr
 
 val rw_add : expr -> expr -> nat -> expr * nat
 
-val rw : expr -> nat -> expr * nat
+val arg_act : expr -> act
+
+val rw_mcall : expr -> char list -> expr -> nat -> expr * nat
+
+val rw :
+  (char list -> bool) -> (char list -> bool) -> expr -> nat -> expr * nat
 
 val temp_index_from : char list -> char list -> nat -> nat -> nat option
 
@@ -1330,4 +1339,6 @@ type tie_result =
 | TieAgree
 | TieDiffer
 
-val sem_tie : char list -> char list -> node -> node -> tie_result
+val sem_tie :
+  char list -> char list -> (char list -> bool) -> (char list -> bool) ->
+  node -> node -> tie_result
